@@ -323,7 +323,7 @@ V("ker-benign-rename-ic", ["C08", "C02"], K, "benign",
 V("ker-benign-temp-name", ["C07"], K, "benign", (OPT, "                name = f\"temp_{counter}\"", "                name = f\"hoisted_{counter}\""))
 
 # ---- C03 -------------------------------------------------------------------------------------------------
-P = ["PERM-AXIS", "PERM-FLAG-IMPL", "SLOT-RESTRICTION", "GEN-TABLES"]
+P = ["PERM-AXIS", "PERM-FLAG-IMPL", "GEN-INTEGRAL-DRIVER", "SLOT-RESTRICTION", "GEN-TABLES"]
 V("perm-loops-swapped", ["C03"], P, "fire",
   (ET, "                        for rot in range(3):\n                            for ref in range(2):", "                        for ref in range(2):\n                            for rot in range(3):"))
 V("perm-args-swapped", ["C03"], P, "fire", (ET, "                                        permute_quadrature_quadrilateral(\n                                            quadrature_rule.points, ref, rot\n                                        ),", "                                        permute_quadrature_quadrilateral(\n                                            quadrature_rule.points, rot, ref\n                                        ),"))
